@@ -618,6 +618,7 @@ pub mod stdlib {
                 parameters: &mut dyn Parameters,
             ) -> Result<Value, ExecutionError> {
                 let list = parameters.param()?.into_list()?;
+                parameters.finish()?;
                 Ok(list.is_empty().into())
             }
         }
@@ -658,6 +659,7 @@ pub mod stdlib {
                 parameters: &mut dyn Parameters,
             ) -> Result<Value, ExecutionError> {
                 let list = parameters.param()?.into_list()?;
+                parameters.finish()?;
                 Ok((list.len() as u32).into())
             }
         }
